@@ -1,7 +1,7 @@
 (* Num/C14Model.v — what the C14 correspondence run observes (model side) and the executable statement of the
    property evaluated on the implementation's observation (the judge).  One [model_*] / [judge_*] pair per case
    kind of harness/src/bin/c14.rs.  No proofs in this file (Num/C14ModelProofs.v: the judge accepts the model). *)
-From CSL Require Import Base.Prelude Base.U64 Cbor.Head Num.Decimal Num.U64 Num.IntRange Num.BigIntCbor Num.Value.
+From CSL Require Import Base.Prelude Base.U64 Cbor.Head Num.Decimal Num.U64 Num.IntRange Num.BigIntCbor Num.Value Num.Mint.
 Local Open Scope N_scope.
 
 (* classes: 0 = unclassified; the others name a (repaired or known) defect class, see known_findings.d/C14.json *)
@@ -14,6 +14,7 @@ Definition cls_mint_overflow : N := 4.     (* C14-mint-builder-overflow *)
 Definition cls_meta_key : N := 5.          (* C14-meta-key-unchecked-int *)
 Definition cls_from_str_range : N := 6.    (* C14-int-from-str-range *)
 Definition cls_as_negative : N := 7.       (* C14-int-as-negative-truncates *)
+Definition cls_mint_dup : N := 8.          (* C14-mint-duplicate-policy-dropped *)
 
 Definition check (b : bool) : verdict := if b then Holds else Fails cls_none.
 
@@ -140,22 +141,49 @@ Definition judge_int (src : int_src) (o : option int_obs) : verdict :=
         end
   end.
 
-(* MintBuilder: flags of the calls, then build() and, for the keys 0..3, the quantity and its CBOR *)
+(* MintBuilder: flags of the calls, then build() and, for the keys 0..3, the quantity, its CBOR and the quantities
+   build().as_positive_multiasset() / as_negative_multiasset() report for it (what the transaction builder balances with) *)
 Definition mint_keys : list N := [0; 1; 2; 3].
-Definition model_mint (ops : list mint_op) : list bool * result (list (option (Z * bytes))) :=
+Definition mint_obs_entry : Type := Z * bytes * N * N.
+Definition orN (o : option N) : N := match o with Some q => q | None => 0 end.
+Definition mint_observe_entry (z : Z) : mint_obs_entry :=
+  (z, int_serialize z, orN (int_as_positive z), orN (int_as_negative z)).
+Definition model_mint (ops : list mint_op) : list bool * result (list (option mint_obs_entry)) :=
   let '(s, oks) := mint_run mint_step [] ops in
   (oks, let* s' := mint_build s in
-        Ok (map (fun k => option_map (fun z => (z, int_serialize z)) (ms_get k s')) mint_keys)).
-Definition judge_mint (ops : list mint_op) (o : list bool * result (list (option (Z * bytes)))) : verdict :=
+        Ok (map (fun k => option_map mint_observe_entry (ms_get k s')) mint_keys)).
+(* every quantity the builder releases is a non-zero Int within -(2^64-1)..2^64-1 (the builder's documented range: a burn is
+   balanced as a u64 quantity), survives CBOR, and is reported exactly on the mint / burn side *)
+Definition judge_mint_entry (e : option mint_obs_entry) : bool :=
+  match e with
+  | Some (z, bs, pos, neg) =>
+      ((mint_min <=? z) && (z <=? int_max))%Z && negb (z =? 0)%Z && resZ_eqb (int_from_bytes bs) (Ok z)
+      && (Z.of_N pos =? Z.max z 0)%Z && (Z.of_N neg =? Z.max (- z) 0)%Z
+  | None => true
+  end.
+Definition judge_mint (ops : list mint_op) (o : list bool * result (list (option mint_obs_entry))) : verdict :=
   match snd o with
-  | Ok l =>
-      if forallb (fun e => match e with
-                           | Some (z, bs) => int_in_range z && resZ_eqb (int_from_bytes bs) (Ok z) && negb (z =? 0)%Z
-                           | None => true end) l
-      then Holds else Fails cls_mint_overflow
+  | Ok l => if forallb judge_mint_entry l then Holds else Fails cls_mint_overflow
   | Err => Holds
   | _ => Fails cls_none
   end.
+
+(* Mint::as_positive_multiasset / as_negative_multiasset of a hand-made Mint *)
+Definition model_mintv (m : mint) : multiasset * multiasset :=
+  (mint_as_positive_multiasset m, mint_as_negative_multiasset m).
+Definition mint_keys_of (m : mint) : list (bytes * bytes) :=
+  flat_map (fun e : bytes * mint_assets => map (fun nz : bytes * Z => (fst e, fst nz)) (snd e)) m.
+Definition ma_keys_of (r : multiasset) : list (bytes * bytes) :=
+  map (fun e => match e with (p, n, _) => (p, n) end) (ma_entries r).
+Definition mintv_side_ok (is_pos : bool) (m : mint) (r : multiasset) : bool :=
+  ma_wfb r && forallb (fun k => (Z.of_N (ma_qty r (fst k) (snd k)) =? mint_spec_qty is_pos m (fst k) (snd k))%Z)
+                      (mint_keys_of m ++ ma_keys_of r).
+Definition judge_mintv (m : mint) (o : multiasset * multiasset) : verdict :=
+  if negb (mint_wfb m) then NA
+  else if mintv_side_ok true m (fst o) && mintv_side_ok false m (snd o) then Holds
+  else if mint_has_min m then Fails cls_as_negative
+  else if has_dup_policy m then Fails cls_mint_dup
+  else Fails cls_none.
 
 (* ------------------------------------------------------------------------------------------------ *)
 (* BigInt *)
